@@ -141,7 +141,15 @@ SPEC.update({
                  "(p_nmp p, p_scores p)))))))))))))) l) | Err e => Err e end)",
                  R(L(T(STR, Z, Z, Z, Z, Z, STR, L(STR), STR, B, OZ, OZ, OZ, L(P(STR, STR)))))),
 })
-IMPORTS = "Model.Base Model.Tdc Model.Merge Model.Digest Model.PinTsv Model.Confidence Model.Calibrate Model.Brew Model.PinCols Model.Fs Model.Fdr Model.Peps Model.BrewDecision Model.Strip Model.Picked Model.Grouping Model.Fasta Model.Decoys Model.Pepxml"
+OS = O(STR)
+SPEC.update({
+    "c19.verify_text": ([STR], "pin_verify_text", R(STR)),
+    "c10.read": ([NAT, L(STR), OS, OS, OS, OS, OS, B, L(L(Z)), L(STR)],
+                 "(fun cs cols o1 o2 o3 o4 o5 lb rows nan => pc_read cs cols (Build_pc_opts o1 o2 o3 o4 o5) lb rows nan)",
+                 R(REC("Build_pc_dataset", L(STR), L(STR), L(STR), L(STR), STR, STR, STR, STR, STR, OS, OS, OS, OS, OS,
+                       L(L(Z)), L(B)))),
+})
+IMPORTS = "Model.Base Model.Tdc Model.Merge Model.Digest Model.PinTsv Model.Confidence Model.Calibrate Model.Brew Model.PinCols Model.Fs Model.Fdr Model.Peps Model.BrewDecision Model.Strip Model.Picked Model.Grouping Model.Fasta Model.Decoys Model.Pepxml Model.PinVerify"
 
 
 class _Toks:
@@ -199,6 +207,23 @@ class TooBig(Exception):
     pass
 
 
+def coqty(ty):
+    """Coq type of a description, when it can be written without knowing a record / inductive name"""
+    if ty in (Z, NAT, B, Q):
+        return {Z: "Z", NAT: "nat", B: "bool", Q: "Q"}[ty]
+    k = ty[0]
+    if k == "list":
+        t = coqty(ty[1])
+        return "(list %s)" % t if t else None
+    if k == "opt":
+        t = coqty(ty[1])
+        return "(option %s)" % t if t else None
+    if k == "pair":
+        a, b = coqty(ty[1]), coqty(ty[2])
+        return "(%s * %s)%%type" % (a, b) if a and b else None
+    return None
+
+
 def lit(v, ty):
     if ty == Z:
         return "(%d)%%Z" % v
@@ -212,6 +237,8 @@ def lit(v, ty):
         return "((%d) # %d)%%Q" % v
     k = ty[0]
     if k == "list":
+        if not v and coqty(ty[1]):
+            return "(@nil %s)" % coqty(ty[1])
         return "[" + "; ".join(lit(x, ty[1]) for x in v) + "]"
     if k == "opt":
         return "None" if v is None else "(Some %s)" % lit(v, ty[1])
@@ -234,26 +261,35 @@ def lit(v, ty):
 
 
 def norm(ty):
-    """Coq function that brings a computed value into the form the driver prints"""
+    """Coq function that brings a computed value into the form the driver prints (None: nothing to do)"""
     if ty in (Z, NAT, B) or ty[0] in ("enum", "rec", "err"):
-        return "(fun x => x)"
-    if ty[0] == "sum":
-        alts = []
-        for tag, (ctor, fields) in sorted(ty[1].items()):
-            vs = ["a%d" % j for j in range(len(fields))]
-            alts.append("| %s %s => %s %s" % (ctor, " ".join(vs), ctor, " ".join("(%s %s)" % (norm(f), v) for f, v in zip(fields, vs))))
-        return "(fun x => match x with %s end)" % " ".join(alts)
+        return None
     if ty == Q:
         return "Qred"
     k = ty[0]
+    if k == "sum":
+        alts, any_ = [], False
+        for tag, (ctor, fields) in sorted(ty[1].items()):
+            vs = ["a%d" % j for j in range(len(fields))]
+            ns = [norm(f) for f in fields]
+            any_ = any_ or any(ns)
+            alts.append("| %s %s => %s %s" % (ctor, " ".join(vs), ctor,
+                                               " ".join(("(%s %s)" % (n, v)) if n else v for n, v in zip(ns, vs))))
+        return "(fun x => match x with %s end)" % " ".join(alts) if any_ else None
     if k == "list":
-        return "(map %s)" % norm(ty[1])
+        n = norm(ty[1])
+        return "(map %s)" % n if n else None
     if k == "opt":
-        return "(option_map %s)" % norm(ty[1])
+        n = norm(ty[1])
+        return "(option_map %s)" % n if n else None
     if k == "pair":
-        return "(fun p => (%s (fst p), %s (snd p)))" % (norm(ty[1]), norm(ty[2]))
+        n1, n2 = norm(ty[1]), norm(ty[2])
+        if not n1 and not n2:
+            return None
+        return "(fun p => (%s, %s))" % ("%s (fst p)" % n1 if n1 else "fst p", "%s (snd p)" % n2 if n2 else "snd p")
     if k == "result":
-        return "(fun r => match r with Ok v => Ok (%s v) | Err e => Err e end)" % norm(ty[1])
+        n = norm(ty[1])
+        return "(fun r => match r with Ok v => Ok (%s v) | Err e => Err e end)" % n if n else None
     if k == "proj":
         return ty[1]
     raise ValueError(ty)
@@ -274,7 +310,8 @@ def goal(line, answer):
         return None
     res = parse(ta, rest)
     call = "%s %s" % (fn, " ".join(lit(a, ty) for a, ty in zip(args, argt)))
-    return "Goal %s (%s) = %s. Proof. vm_compute. reflexivity. Qed." % (norm(rest), call, lit(res, rest))
+    n = norm(rest)
+    return "Goal %s (%s) = %s. Proof. vm_compute. reflexivity. Qed." % (n or "", call, lit(res, rest))
 
 
 def run(prop, max_goals=150, seed=1):
